@@ -377,14 +377,14 @@ def _scenario(rng, caps=None, inSeq0=None, n=None, user=None, pw=None, priv=None
     pw = _pw(rng) if pw is None else pw
     priv = rng.choice([2, 3, 4, 4, 5]) if priv is None else priv
     rs = []
-    for _ in range(rounds):
+    for ri in range(rounds):
         rs.append({'bmc': {'caps': rng.choice([0x04, 0x10, 0x01, 0x15, 0x37]) if caps is None else caps,
                            'user': user, 'pw': _pwhex(pw), 'priv': priv, 'tempSid': _b32(rng),
                            'challenge': bytes(rng.randrange(256) for _ in range(16)).hex(), 'sid': _b32(rng),
                            'inSeq0': _b32(rng, False) if inSeq0 is None else inSeq0},
                    'outSeq': rng.choice([1, 0xfffffffe, rng.randrange(1, 0xffffffff)]),
                    'n': rng.randrange(0, 5) if n is None else n,
-                   'inject': inject or {}})
+                   'inject': (inject[ri] if isinstance(inject, list) else inject) or {}})
     return {'op': 'session', 'user': user, 'pw': pw, 'priv': priv, 'ignore': ignore, 'max_retries': max_retries,
             'closes': closes, 'rounds': rs}
 
@@ -449,6 +449,13 @@ def _scenarios(rng, tier):
     for _ in range(3 if tier == 'quick' else 30):
         out.append(('two-sessions', _scenario(rng, caps=rng.choice([0x04, 0x10, 0x01, 0x15]), rounds=2,
                                               max_retries=rng.choice([0, 0, 2]))))
+    # a handshake that fails at step k (silence / error completion code), then a NEW attempt on the same Rmcp and
+    # Session objects: it must start from scratch (first three messages outside any session)
+    for k in range(1, 5):
+        for f in ('silent', 0x81):
+            out.append(('failed-then-new-attempt@%d' % k,
+                        _scenario(rng, caps=rng.choice([0x04, 0x10, 0x15]), rounds=2, n=1, inject=[{str(k): f}, {}],
+                                  closes=rng.choice([1, 'c']))))
     out.append(('ignore-len', _scenario(rng, caps=0x15, ignore=1)))
     # a failure at every step (silence / error completion code), then the caller's clean-up close_session()
     for k in range(1, 6):
